@@ -47,6 +47,9 @@ pub fn check_sqrt(c: &RootCase) -> Verdict {
         let s = x.sqrt_with_context(&ctx);
         ensure!(v, s.as_ref().map(|s| dec_of(s).is_zero()) == Some(true), "C10/zero", "sqrt(0) = {:?}", s.as_ref().map(D::of));
         ensure!(v, r.sqrt_with_context(&ctx).map(|s| dec_of(&s).is_zero()) == Some(true), "C10/zero-ref", "ref sqrt(0) is not zero");
+        ensure!(v, dec_of(&r.sqrt_abs_with_context(&ctx)).is_zero(), "C10/zero-ref-abs", "ref sqrt_abs(0) is not zero");
+        ensure!(v, dec_of(&r.sqrt_copysign_with_context(&ctx)).is_zero(), "C10/zero-ref-copysign", "ref sqrt_copysign(0) is not zero");
+        ensure!(v, x.sqrt().map(|s| dec_of(&s).is_zero()) == Some(true), "C10/zero-default", "sqrt() of zero is not zero");
         return v;
     }
     let mag: BigUint = int.magnitude().clone();
@@ -64,6 +67,7 @@ pub fn check_sqrt(c: &RootCase) -> Verdict {
         v.labels.push("negative");
         ensure!(v, x.sqrt_with_context(&ctx).is_none(), "C10/negative-not-none", "sqrt of a negative value returned Some");
         ensure!(v, r.sqrt_with_context(&ctx).is_none(), "C10/negative-not-none-ref", "ref sqrt of a negative value returned Some");
+        ensure!(v, x.sqrt().is_none(), "C10/negative-not-none-default", "sqrt() of a negative value returned Some");
         ensure!(v, dec_of(&abs_root).eq_val(want), "C10/value:sqrt_abs", "sqrt_abs_with_context = {} expected {}", dec_of(&abs_root).show(), want.show());
         ensure!(v, dec_of(&cs_root).eq_val(&want.neg()), "C10/value:sqrt_copysign", "sqrt_copysign_with_context = {} expected {}", dec_of(&cs_root).show(), want.neg().show());
         return v;
@@ -206,6 +210,40 @@ pub fn constructed_strategy(k: u32, pmax: u64, allow_neg: bool) -> BoxedStrategy
         .boxed()
 }
 
+/// exact roots at a precision larger than they need: x = R^k with R of 1..60 digits and no trailing zero,
+/// p = digits(R) + 0..130 (and 100, 150, 160), any scale residue through value-preserving re-representation,
+/// and the same root +-1 unit far away (the result then needs all p digits: 0.00..0x / 9.99..9x tails)
+pub fn exact_large_p_strategy(k: u32, allow_neg: bool) -> BoxedStrategy<RootCase> {
+    (gen::udigits(60), prop_oneof![3 => 0u64..=130, 1 => Just(1000u64), 1 => Just(1001u64), 1 => Just(1002u64)], -300i64..=300, 0usize..6, 0..7u8, any::<bool>(), 0..4u8, 1u32..40)
+        .prop_map(move |(root, extra, s, z, mode, neg, perturb, far)| {
+            let root = root.trim_end_matches('0').to_string();
+            let root = if root.is_empty() { "7".to_string() } else { root };
+            let r: BigUint = root.parse().unwrap();
+            let p = match extra {
+                1000 => 100,
+                1001 => 150,
+                1002 => 160,
+                e => root.len() as u64 + e,
+            };
+            let mut n = r.pow(k);
+            let mut scale = k as i64 * s;
+            match perturb {
+                1 => {
+                    n = n * BigUint::from(10u8).pow(k * far) + 1u8;
+                    scale += (k * far) as i64;
+                }
+                2 => {
+                    n = n * BigUint::from(10u8).pow(k * far) - 1u8;
+                    scale += (k * far) as i64;
+                }
+                _ => {}
+            }
+            let (digits, scale) = if perturb == 2 { (n.to_string(), scale) } else { (format!("{}{}", n, "0".repeat(z)), scale + z as i64) };
+            RootCase { d: D::new(if allow_neg && neg { format!("-{}", digits) } else { digits }, scale), p, mode }
+        })
+        .boxed()
+}
+
 pub fn small_grid(i: u64, limit: u64, allow_neg: bool) -> Option<RootCase> {
     // n in 0..limit, scale -3..3, p 1..6, 7 modes, sign
     let mut k = i;
@@ -242,6 +280,7 @@ pub fn run(ctx: &Ctx) {
     ctx.generated("random", "sqrt", n, "1..max digits, scales +-2000 (both parities), p small / 1..150 / 100 / 95..105, negatives and zeros included", move || free_strategy(max_len, 150, 8), check_sqrt);
     ctx.generated("long-inputs", "sqrt", n / 2, "40..max digits with p in 1..20: more than 2(p+5) digits", move || long_input_strategy(max_len, false), check_sqrt);
     ctx.generated("constructed-roots", "sqrt", n, "x = R^2 (+-1 in a far digit) where R = p digits ++ {nothing, 5, 50..0x, 49..9x, 0..0x, 9..9x}", || constructed_strategy(2, 150, false), check_sqrt);
+    ctx.generated("exact-roots-large-p", "sqrt", n / 2, "x = R^2 with R of 1..60 digits without trailing zeros (also +-1 in a far digit), p = digits(R) + 0..130 / 100 / 150 / 160, trailing zeros and scales of every residue", || exact_large_p_strategy(2, false), check_sqrt);
     let _ = BigInt::from(0);
     let _ = Mode::Up;
 }
